@@ -105,7 +105,7 @@ fn main() {
         let v: Value = serde_json::from_str(&text).unwrap_or_else(|e| die(2, &format!("{}: {}", path, e)));
         let id = v["property"].as_str().unwrap_or("").to_string();
         let (_, replay) = registry(&id).unwrap_or_else(|| die(2, "unknown property in replay file"));
-        match replay(&v["case"]) {
+        match common::guard_case(|| replay(&v["case"])) {
             Ok(()) => {
                 println!("replay: property={} case holds on the current tree", id);
                 std::process::exit(0);
@@ -207,8 +207,9 @@ fn main() {
     // every reported violation must replay identically twice, else machinery error
     let mut replay_files = vec![];
     for (n, v) in new_violations.iter().enumerate() {
-        let r1 = replay(&v.case);
-        let r2 = replay(&v.case);
+        // a replay that panics (a library call that is not individually guarded) reproduces the violation as well
+        let r1 = common::guard_case(|| replay(&v.case));
+        let r2 = common::guard_case(|| replay(&v.case));
         if r1.is_ok() || r2.is_ok() || r1 != r2 {
             die(
                 4,
